@@ -269,7 +269,7 @@ class Lib:
             x = args[0]
             while x.get('kind') in ('ParenExpr', 'ImplicitCastExpr'):
                 x = x['inner'][0]
-            if name == 'move' and x.get('kind') == 'UnaryOperator' and x.get('opcode') == '*' and x['inner'][0].get('kind') == 'CXXThisExpr' and em.opaque_ok:
+            if name == 'move' and x.get('kind') == 'UnaryOperator' and x.get('opcode') == '*' and x['inner'][0].get('kind') == 'CXXThisExpr' and em.opaque_ok and getattr(getattr(em, 'spec', None), 'counters', False):
                 # std::move(*this): the operation hands itself to its next continuation
                 em.uses_moved_self = True
                 return '(*(g_moved_self++, %s))' % em.e(x['inner'][0])
